@@ -551,17 +551,28 @@ structure EncC where
   discard : Bool := false
   deriving Repr
 
-/-- `encodeWithEarlyCheckStrategyWithContext`; the flag: the cancellation was observed in the dry run -/
-def encodeEarlyCtx (F : Faults) (o : Opts) (c : Ctx) (e : Enc) (h : Hdr) (ms : List WMsg) : Enc × Ctx × Res × Bool :=
+/-- does `calculateDataSizeWithContext` put `e.w` (and `e.n`) back when the dry run is cancelled (the repaired code) or return
+with `e.w == io.Discard` (the code as pinned)? Both variants are modelled, as for `StreamCfg`; `pinnedCtxCfg` is the one the
+driver runs against /repo. -/
+structure CtxCfg where
+  restoresWriter : Bool
+  deriving Repr, DecidableEq
+
+/-- /repo/encoder/encoder.go as it is now -/
+def pinnedCtxCfg : CtxCfg := ⟨false⟩
+
+/-- `encodeWithEarlyCheckStrategyWithContext`; the flag: the encoder is left on `io.Discard` (the cancellation was observed in
+the dry run and the writer is not restored) -/
+def encodeEarlyCtx (cc : CtxCfg) (F : Faults) (o : Opts) (c : Ctx) (e : Enc) (h : Hdr) (ms : List WMsg) : Enc × Ctx × Res × Bool :=
   match dryPassCtx o c e.es e.dataSize ms with
-  | (c', none) => (e, c', .ec, true)                 -- `e.w` stays `io.Discard`; `Encode…` resets the rest
+  | (c', none) => (e, c', .ec, !cc.restoresWriter)   -- pinned: `e.w` stays `io.Discard`; `Encode…` resets the rest
   | (c', some dry) =>
     let r := encodeBodyCtx F o c' (e.reset o) h dry.1 dry.2
     (r.1, r.2.1, r.2.2, false)
 
 /-- `EncodeWithContext` after `validateMessages` (as `encode`); on an encoder stuck on `io.Discard` the early-check strategy
 runs against `io.Discard`: no destination operation, success unless the context is cancelled within its `2·len` polls -/
-def encodeCtx (F : Faults) (o : Opts) (c : Ctx) (x : EncC) (f : FitIn) : EncC × Res :=
+def encodeCtx (cc : CtxCfg) (F : Faults) (o : Opts) (c : Ctx) (x : EncC) (f : FitIn) : EncC × Res :=
   if x.discard then
     let polls := 2 * f.msgs.length
     ({ x with e := x.e.reset o }, match c with
@@ -572,7 +583,7 @@ def encodeCtx (F : Faults) (o : Opts) (c : Ctx) (x : EncC) (f : FitIn) : EncC ×
       if x.e.w.kind.direct then
         let d := encodeDirectCtx F o c x.e f.hdr f.ds0 f.msgs
         (d.1, d.2.1, d.2.2, false)
-      else encodeEarlyCtx F o c x.e f.hdr f.msgs
+      else encodeEarlyCtx cc F o c x.e f.hdr f.msgs
     let e' := r.1.reset o
     if r.2.2.1 != .ok then ({ e := e', discard := r.2.2.2 }, r.2.2.1)
     else
@@ -581,13 +592,13 @@ def encodeCtx (F : Faults) (o : Opts) (c : Ctx) (x : EncC) (f : FitIn) : EncC ×
 
 /-- `EncodeWithContext` with the validators in front (as `encodeV`; `c = none` is also what plain `Encode` does on an encoder
 that an earlier cancelled call left on `io.Discard`) -/
-def encodeCtxV {σ : Type} (V : MsgValidator σ) (F : Faults) (o : Opts) (c : Ctx) (x : EncC) (f : FitIn) : EncC × Res :=
+def encodeCtxV {σ : Type} (V : MsgValidator σ) (cc : CtxCfg) (F : Faults) (o : Opts) (c : Ctx) (x : EncC) (f : FitIn) : EncC × Res :=
   if f.msgs.isEmpty then (x, .ee)
   else if !f.msgs.all (protoOK f.hdr.protoVer) then (x, .ep)
   else
     match validateAll V V.init f.msgs with
     | none => (x, .ev)
-    | some ms' => encodeCtx F o c x { f with msgs := ms' }
+    | some ms' => encodeCtx cc F o c x { f with msgs := ms' }
 
 /-- number of context polls of one uncancelled `EncodeWithContext` of `n` messages -/
 def ctxPolls (kind : Kind) (n : Nat) : Nat := if kind.direct then n else 2 * n
